@@ -930,7 +930,10 @@ fn exec_play(song: &mut Song, t: &Token) -> bool {
         // check lastpos
         if trk!(song).timepos > time_ptr_last { time_ptr_last = trk!(song).timepos; }
     }
-    song.track_sync();
+    // every track continues from the end of the longest part
+    for trk in song.tracks.iter_mut() {
+        trk.timepos = time_ptr_last;
+    }
     song.cur_track = tmp_cur_track;
     true
 }
